@@ -289,6 +289,7 @@ def generate(seed, tier):
         p_arr=sw.pick([0, .12]), p_name=sw.pick([0, .2, .3]),
         p_cross=.4, p_text=sw.pick([0, .06]), p_bool=sw.pick([0, .05]),
         p_err=sw.pick([0, .05]), depth=sw.pick([1, 2, 2]), p_alias=.25, p_arrlit=.06,
+        p_refop=sw.pick([0, 0, .1]),
         w_if=sw.pick([0, 2]), w_iferror=sw.pick([0, 1]),
         w_concat=sw.pick([0, 1]), w_istype=sw.pick([0, .7]),
     )
